@@ -22,6 +22,7 @@ impl SchemaMut {
 		let mut state = WriteCanonicalFormState {
 			w: ErrorConversionWriter(Rabin::default()),
 			named_type_written: vec![false; self.nodes.len()],
+			unnamed_type_being_written: vec![false; self.nodes.len()],
 		};
 		state.write_canonical_form(self, SchemaKey::from_idx(0))?;
 		Ok(state.w.0.finish())
@@ -31,6 +32,9 @@ impl SchemaMut {
 struct WriteCanonicalFormState<W> {
 	w: ErrorConversionWriter<W>,
 	named_type_written: Vec<bool>,
+	/// Unnamed types (array, map, union) can't be referenced by name, so a cycle that only goes
+	/// through them can't be represented (and would otherwise recurse forever)
+	unnamed_type_being_written: Vec<bool>,
 }
 
 impl<W: Write> WriteCanonicalFormState<W> {
@@ -63,6 +67,19 @@ impl<W: Write> WriteCanonicalFormState<W> {
 					}
 				})
 			};
+
+		let is_unnamed_container = matches!(
+			node.type_,
+			RegularType::Union(_) | RegularType::Array(_) | RegularType::Map(_)
+		);
+		if is_unnamed_container {
+			if std::mem::replace(&mut self.unnamed_type_being_written[key.idx], true) {
+				return Err(SchemaError::new(
+					"The schema contains a cycle that only goes through unnamed types \
+						(array, map, union), which cannot be represented",
+				));
+			}
+		}
 
 		// In PCF, logical types are completely ignored
 		// https://issues.apache.org/jira/browse/AVRO-1721
@@ -161,6 +178,9 @@ impl<W: Write> WriteCanonicalFormState<W> {
 					self.w.write_str("]}")?;
 				}
 			}
+		}
+		if is_unnamed_container {
+			self.unnamed_type_being_written[key.idx] = false;
 		}
 		Ok(())
 	}
